@@ -282,6 +282,15 @@ def stepLine1 (w : World) (toks : List String) : World × String :=
       let r := decode (decLE wd) decVoid [] b
       (w, s!"{hex b} | {match r.2 with | some n => s!"ok {n}" | none => "err 0"} {showSet r.1}")
     | _, _ => (w, "bad-op")
+  -- a set `0 … n-1` of four- or eight-byte elements with `n` around 2^16; the answer summarises the encoding: its length,
+  -- the count prefix and the sum of its bytes (that decoding gives the set back is `C11_codec_widths`, `n < 2^32`)
+  | ["wbig", t, n] =>
+    let width : Option Nat := match t with | "u32" => some 4 | "u64" => some 8 | _ => none
+    match width, n.toNat? with
+    | some wd, some n =>
+      let b := encode (encLE wd) encVoid ((List.range n).map fun i => (i, 0))
+      (w, s!"{b.length} {hex (b.take 4)} {(b.foldl (fun a x => (a + x.toNat) % 4294967296) 0)}")
+    | _, _ => (w, "bad-op")
   -- ordered maps with pointer / slice / map values
   | "codec" :: t :: hs =>
     match t.toNat?, hs.mapM unhex with
